@@ -42,8 +42,57 @@ def shapes(tier):
     for wa, wb in lays:
         for alpha in ('ascii', 'latin1'):
             out.append({'mode': 'words', 'wa': wa, 'wb': wb, 'la': len(wa), 'lb': len(wb), 'alpha': alpha})
+    # free mode: texts of fully symbolic characters (any scalar value of the width class, so also every kind of
+    # whitespace): words are found by an independent split on ASCII whitespace
+    fw = [([1, 1, 1], [1, 1, 1]), ([1, 2, 1], [1, 1, 1]), ([1, 1, 1], [1, 3, 1]), ([1, 1], [1]), ([1], [1, 2]),
+          ([1, 1, 1, 1], [1, 1, 1]), ([1, 2, 1, 1], [1, 1, 2, 1]), ([3, 1, 3], [1, 3, 1])]
+    if tier != 'quick':
+        fw += [([1, 1, 1, 1, 1], [1, 1, 1, 1]), ([1, 2, 1, 1, 1], [1, 1, 3, 1, 1]), ([1, 1, 1, 1, 1], [1, 1, 1, 1, 1])]
+    for wa, wb in fw:
+        out.append({'mode': 'free', 'wa': wa, 'wb': wb, 'la': len(wa), 'lb': len(wb)})
     out.sort(key=lambda s: -(s['la'] * s['lb']))
     return out
+
+
+ASCII_WS = (0x09, 0x0A, 0x0C, 0x0D, 0x20)
+
+
+def split_ascii_ws(ctx, chars):
+    """reference split of a char list on ASCII whitespace (decided per path): list of words (char lists)"""
+    words, cur = [], []
+    for c in chars:
+        isws = ctx.branch(ctx.m.disj([ctx.m.eq(c, Int(w, 'char')) for w in ASCII_WS])) if c.sym() else (c.v in ASCII_WS)
+        if isws:
+            if cur:
+                words.append(cur)
+            cur = []
+        else:
+            cur.append(c)
+    if cur:
+        words.append(cur)
+    return words
+
+
+def run_free(ctx, shape, opts):
+    m = ctx.m
+    ca = ctx.in_string('a_words', shape['wa']).chars()
+    cb = ctx.in_string('b_words', shape['wb']).chars()
+    wa, wb = split_ascii_ws(ctx, ca), split_ascii_ws(ctx, cb)
+    a, b = mkstr(ctx, ca), mkstr(ctx, cb)
+    res = m.call('match_words', a, b, False)
+    ctx.out('match', res)
+    la, lb = len(wa), len(wb)
+
+    def rel(i, j):
+        return len(wa[i]) == len(wb[j]) and ctx.branch(m.conj([m.eq(x, y) for x, y in zip(wa[i], wb[j])]))
+    pairs0 = check_matching(ctx, res, la, lb, rel, 'match_words')
+    ew = m.call('edited_words', a, b)
+    ctx.out('edited', Tup([VecObj(sorted_set(ctx, ew.fields[0])), VecObj(sorted_set(ctx, ew.fields[1]))]))
+    ea = sorted(x.v for x in sorted_set(ctx, ew.fields[0]))
+    eb = sorted(x.v for x in sorted_set(ctx, ew.fields[1]))
+    ctx.require(ea == [i for i in range(la) if i not in [p[0] for p in pairs0]], 'edited_words: a-indices == complement')
+    ctx.require(eb == [j for j in range(lb) if j not in [p[1] for p in pairs0]], 'edited_words: b-indices == complement')
+    ctx.sample = {'mode': 'free', 'wa': shape['wa'], 'wb': shape['wb'], 'words': [la, lb], 'pairs': pairs0}
 
 
 ALPHA = {'ascii': (1, [0x61, 0x41, 0x62]), 'latin1': (2, [0xE4, 0xC4, 0xF6])}
@@ -165,6 +214,8 @@ def run(ctx, shape, opts):
         return
     if shape['mode'] == 'words':
         return run_words(ctx, shape, opts)
+    if shape['mode'] == 'free':
+        return run_free(ctx, shape, opts)
     # text mode: real closures of match_words
     wa = ctx.in_string('a_words', [1] * la).chars()
     wb = ctx.in_string('b_words', [1] * lb).chars()
@@ -219,6 +270,8 @@ def _split_words(flat, lens):
 
 def _texts(shape, inputs):
     la, lb = shape['la'], shape['lb']
+    if shape['mode'] == 'free':
+        return list(inputs['a_words']), list(inputs['b_words'])
     if shape['mode'] == 'words':
         def join(ws):
             out = []
@@ -258,7 +311,7 @@ def native_outputs(native, shape, inputs):
         out['match'] = v
         return out
     a, b = _texts(shape, inputs)
-    k, v = native_ok(native.call('match_words', a=a, b=b, ic=bool(inputs['ignore_case'])))
+    k, v = native_ok(native.call('match_words', a=a, b=b, ic=bool(inputs.get('ignore_case', False))))
     if k != 'ok':
         return {'panic': v}
     out['match'] = v
@@ -295,8 +348,22 @@ def concrete_check(native, inputs, shape):
         M = [[bool(inputs['m_%d_%d' % (i, j)]) for j in range(lb)] for i in range(la)]
         return _check_matching_py(o['match'], la, lb, lambda i, j: M[i][j], 'match_words_with')
     wa, wb = inputs['a_words'], inputs['b_words']
-    ic = bool(inputs['ignore_case'])
-    if shape['mode'] == 'words':
+    ic = bool(inputs.get('ignore_case', False))
+    if shape['mode'] == 'free':
+        def sp(cps):
+            ws, cur = [], []
+            for c in cps:
+                if c in ASCII_WS:
+                    if cur:
+                        ws.append(cur)
+                    cur = []
+                else:
+                    cur.append(c)
+            return ws + ([cur] if cur else [])
+        wa, wb = sp(wa), sp(wb)
+        la, lb = len(wa), len(wb)
+        low = lambda w: w
+    elif shape['mode'] == 'words':
         wa, wb = _split_words(wa, shape['wa']), _split_words(wb, shape['wb'])
         low = lambda w: [ord(chr(c).lower()) for c in w]
     else:
